@@ -13,6 +13,9 @@ def gens(tier, seed):
     scs += core.gen_inflight(full=(tier != "quick"))
     scs += core.gen_scripted_loss()
     scs += core.gen_badreply()
+    scs += core.gen_listeners()
+    scs += core.gen_rstlate()
+    scs += core.gen_pollers()
     scs += core.gen_random(r, 1500 if tier == "quick" else 30000)
     scs += core.gen_long(r, 30 if tier == "quick" else 400)
     scs += core.gen_stale_loss(r, 100 if tier == "quick" else 1000)
